@@ -23,9 +23,25 @@ def xl_unicode(s):
         return n, b"\x00" + bytes(units[2 * i] for i in range(n))
     return n, b"\x01" + units
 
-def workbook_stream(formats, xfs, is_1904, cells, date1904_value=1):
+def codepage_rec(key):
+    """the CodePage record (0x0042) of the globals: BIFF8 text never depends on it (audit-2 finding
+    XLS-1), so any value - Excel 1200, JExcelApi 1252, a DBCS page, UTF-8, values unknown to the
+    `codepage` crate - or no record is written, chosen by a hash of `key` (no PRNG draw)"""
+    import zlib
+    cps = [1200, 1200, 1252, 1252, 932, 936, 1251, 65001, 10000, 437, 54321, None]
+    cp = cps[zlib.crc32(repr(key).encode("utf-8", "replace")) % len(cps)]
+    return b"" if cp is None else struct.pack("<HHH", 0x0042, 2, cp)
+
+def workbook_stream(formats, xfs, is_1904, cells, date1904_value=1, biff5=None):
+    """biff5 = None: a BIFF8 stream.  biff5 = (code page, Python codec): the same workbook as a BIFF5 / BIFF7
+    stream (the `Book` stream of Excel 5.0 / 95, Spreadsheet::WriteExcel < 2, PEAR, SheetJS biff5): BOF
+    version 0x0500, the CodePage record of the byte strings, FORMAT = ifmt + byte string with a
+    ONE-byte length, 16-byte XF records, BoundSheet name as a byte string, 10-byte DIMENSIONS; cell
+    records are laid out as in BIFF8."""
+    if biff5 is not None:
+        return workbook_stream_biff5(formats, xfs, is_1904, cells, date1904_value, biff5)
     bof_g = rec(0x0809, struct.pack("<HHHHII", 0x0600, 0x0005, 0x0DBB, 0x07CC, 0, 0x0306))
-    pre = bof_g + rec(0x0042, struct.pack("<H", 1200))
+    pre = bof_g + codepage_rec((formats, xfs, is_1904, cells))
     if is_1904 is not None:
         pre += rec(0x0022, struct.pack("<H", date1904_value if is_1904 else 0))
     for ifmt, s in formats:
@@ -59,6 +75,46 @@ def workbook_stream(formats, xfs, is_1904, cells, date1904_value=1):
     dim = rec(0x0200, struct.pack("<IIHHH", 0, 1, 0, max(col, 1), 0))
     return glob + bof_s + dim + body + eof
 
+def cell_records(cells):
+    body, col = b"", 0
+    for ixfe, kind, payload in cells:
+        if kind == "num":
+            body += rec(0x0203, struct.pack("<HHHQ", 0, col, ixfe, payload)); col += 1
+        elif kind == "rk":
+            body += rec(0x027E, struct.pack("<HHHI", 0, col, ixfe, payload)); col += 1
+        elif kind == "fml":
+            body += rec(0x0006, struct.pack("<HHHQHI", 0, col, ixfe, payload, 0, 0) +
+                        struct.pack("<H", 3) + b"\x1e\x01\x00"); col += 1
+        elif kind == "mulrk":
+            first = col
+            inner = b"".join(struct.pack("<HI", x, rk) for x, rk in payload)
+            col += len(payload)
+            body += rec(0x00BD, struct.pack("<HH", 0, first) + inner + struct.pack("<H", col - 1))
+    return body, col
+
+def workbook_stream_biff5(formats, xfs, is_1904, cells, date1904_value, biff5):
+    cp, codec = biff5
+    bof_g = rec(0x0809, struct.pack("<HHHH", 0x0500, 0x0005, 0x0DBB, 0x07CC))
+    pre = bof_g + rec(0x0042, struct.pack("<H", cp))
+    if is_1904 is not None:
+        pre += rec(0x0022, struct.pack("<H", date1904_value if is_1904 else 0))
+    for ifmt, s in formats:
+        b = s.encode(codec)
+        assert len(b) < 256
+        pre += rec(0x041E, struct.pack("<HB", ifmt, len(b)) + b)
+    for ifmt in xfs:
+        pre += rec(0x00E0, struct.pack("<HHHBBHHHH", 0, ifmt, 0x0001, 0x20, 0, 0, 0, 0, 0x20C0))
+    name = b"S"
+    def bs(pos):
+        return rec(0x0085, struct.pack("<IBB", pos, 0, 0) + bytes([len(name)]) + name)
+    eof = rec(0x000A, b"")
+    pos = len(pre) + len(bs(0)) + len(eof)
+    glob = pre + bs(pos) + eof
+    bof_s = rec(0x0809, struct.pack("<HHHH", 0x0500, 0x0010, 0x0DBB, 0x07CC))
+    body, col = cell_records(cells)
+    dim = rec(0x0200, struct.pack("<HHHHH", 0, 1, 0, max(col, 1), 0))
+    return glob + bof_s + dim + body + eof
+
 FREE, EOC, FATS = 0xFFFFFFFF, 0xFFFFFFFE, 0xFFFFFFFD
 
 def cfb_write(stream_name, data):
@@ -90,7 +146,8 @@ def cfb_write(stream_name, data):
     return hdr + fatb + d + data.ljust(nsec * ss, b"\0")
 
 def write_xls(path, formats, xfs, is_1904, cells, **kw):
-    open(path, "wb").write(cfb_write("Workbook", workbook_stream(formats, xfs, is_1904, cells, **kw)))
+    name = "Book" if kw.get("biff5") is not None else "Workbook"
+    open(path, "wb").write(cfb_write(name, workbook_stream(formats, xfs, is_1904, cells, **kw)))
 
 # ------------------------------------------------------------------ XLSB
 def brec(t, data=b""):
